@@ -245,7 +245,7 @@ fn base_pairs(a: &Args, rng: &mut Rng) -> Vec<Pair> {
     } else {
         gen::exhaustive_pairs(3, 3)
     };
-    let (nrand, maxlen) = if thorough { (20000, 40) } else { (1500, 16) };
+    let (nrand, maxlen) = if thorough { (20000, 40) } else { (3000, 24) };
     let nrand = a.num("nrand", nrand) as usize;
     for _ in 0..nrand {
         pairs.push(gen::random_pair(rng, maxlen));
